@@ -157,13 +157,14 @@ class C08(CheckBase):
                 op['dt'] = rng.choice([-3600.0, -10.0, 5.0, 3600.0, 86400.0])
             ops.append(op)
         stop = {'send_end': rng.random() < 0.75}
-        if rng.random() < 0.4:
+        if rng.random() < 0.5:
+            nsub = max(nsub, 2)  # (the two fresh subscriptions below sit behind different endpoints)
             # the application commits a transaction while stop_all() is ending the subscriptions (slow peers)
             tx = g.gen_op(kinds=['metric', 'alert', 'component', 'operational', 'context', 'rt'])
             if tx is not None:
                 # tx_delay (x slow_d) < 0: the commit starts first and its sending thread is stalled right after it took
                 # the list of subscribers, stop_all() overtakes it
-                stop.update({'tx': tx, 'slow_d': rng.choice([0.15, 0.4]), 'tx_delay': rng.choice([-1, -1, 0.5, 1.5, 2.5])})
+                stop.update({'tx': tx, 'slow_d': rng.choice([0.15, 0.4]), 'tx_delay': rng.choice([-1, -1, -1, 0.5, 1.5, 2.5])})
                 # two fresh subscriptions for everything, so that live subscribers exist when the provider stops
                 for j in range(2):
                     ops.append({'id': n + j, 'k': 'subscribe', 'owner': j, 'actions': sorted(actions), 'expires': 3600,
@@ -460,6 +461,24 @@ class C08(CheckBase):
         with s.no_preempt():
             self._judge(ctx, plan, w, subs, eps_, other_ep, commits, A, t_stop0, t_stop1)
 
+    @staticmethod
+    def _endpoint_busy_throughout(endpoints, rec, t_from):
+        """True if the endpoint that received rec was serving other requests without a gap from t_from until rec was sent"""
+        ep = next((e for e in endpoints if any(r is rec for r in e.received)), None)
+        if ep is None:
+            return False
+        spans = sorted((r.sent_t, r.t_done if r.t_done is not None else r.t) for r in ep.received if r is not rec)
+        t = t_from
+        for a, b in spans:
+            if b <= t:
+                continue
+            if a > t + 0.002:
+                break
+            t = max(t, b)
+            if t >= rec.sent_t - 0.002:
+                return True
+        return t >= rec.sent_t - 0.002
+
     def _note_failures(self, ctx, subs, eps_, other_ep, modes, w, t_op0):
         """a subscriber knows that a delivery to it failed (it answered with an error / broke the connection itself).
         Connection-level faults affect every subscription that shares the connection (same NotifyTo host:port)."""
@@ -537,7 +556,8 @@ class C08(CheckBase):
                 if rec.action not in flt:
                     ctx.violation('C08.iff', 'action-not-in-filter', f'subscription {sb.k} (filter {sorted(flt)}) received '
                                                                      f'{rec.action}')
-                if sb.unsub_answered is not None and rec.sent_t > sb.unsub_answered[0] + SEND_MARGIN:
+                if sb.unsub_answered is not None and rec.sent_t > sb.unsub_answered[0] + SEND_MARGIN and \
+                        not self._endpoint_busy_throughout(eps_ + [other_ep], rec, sb.unsub_answered[0]):
                     ctx.violation('C08.iff', 'sent-to-dead:after-unsubscribe-was-answered',
                                   f'subscription {sb.k}: the provider put {rec.action} on the wire at t={rec.sent_t:.3f}, '
                                   f'{rec.sent_t - sb.unsub_answered[0]:.3f}s after it had answered the Unsubscribe '
@@ -546,10 +566,13 @@ class C08(CheckBase):
                 # complete (the decision to send it was certainly taken after the subscription had ended)
                 end_done = min((e[1].t_done for e in ends[sb.k] if e[1].t_done is not None), default=None)
                 c_start = commit_start.get(v)
-                if end_done is not None and rec.sent_t > end_done + 0.005:
-                    # (a send that was decided before the end message waits at most for the end exchange on the shared
-                    # connection and goes out at the very instant that exchange is complete; threads are only stalled
-                    # where they release the subscription table lock, never between the validity check and the write)
+                if end_done is not None and rec.sent_t > end_done + 0.005 and \
+                        not self._endpoint_busy_throughout(eps_ + [other_ep], rec, end_done):
+                    # (a send that was decided before the end message waits for the pooled connection of that peer and
+                    # goes out the instant it is free - possibly after further exchanges with other subscriptions behind
+                    # the same endpoint: only a send after the endpoint had been idle in between was decided too late;
+                    # threads are only stalled where they release the subscription table lock, never between the
+                    # validity check and the write)
                     ctx.violation('C08.iff', 'sent-to-dead:after-subscription-end',
                                   f'subscription {sb.k}: the provider put {rec.action} on the wire at t={rec.sent_t:.3f}, '
                                   f'{rec.sent_t - end_done:.3f}s after the SubscriptionEnd of this subscription had been '
